@@ -689,5 +689,30 @@ theorem checkRecoveryOrder_ok_ordChk (tr : List IoEv2) (st : OrderSt) (h : check
   obtain ⟨hc, hs⟩ := orderRun_sim C tr (sim_init_recovery C d) h
   exact ⟨hc, hs.vol⟩
 
+/-! ## Started with pending effects
+
+The driver checks every operation's trace on its own, from the empty monitor state.  An operation really starts with
+the effects the previous one left volatile (every sync leaves its WAL truncation un-synced: `left_volatile=1`).  The
+simulation holds from any such start: the monitor state whose pending list is `pend0` corresponds to the concurrent state
+with the abstraction of `pend0` volatile. -/
+
+theorem sim_of_pending (pend0 : List Pend) (nid : Nat) (hlt : ∀ p ∈ pend0, p.id < nid)
+    (hnd : (pend0.map (·.id)).Nodup) (d0 : Disk Content MetaRec WalRec LogRec) :
+    Sim C { pend := pend0 } ⟨d0, pend0.filterMap (absP C), []⟩ 0 nid :=
+  ⟨rfl, .nil, rfl, by omega, fun h => by omega,
+    ⟨hlt, fun s h => (by cases h), hnd, fun s h => (by cases h)⟩⟩
+
+/-- **monitor ⇒ order discipline, started with pending effects**: if the monitor's scan, started with the pending list
+`pend0` (ids below `nid`, distinct), accepts the trace, the abstracted concurrent trace passes the order discipline from
+the concurrent state in which the abstraction of `pend0` is volatile. -/
+theorem orderRun_ok_ordChk_from (pend0 : List Pend) (nid : Nat) (hlt : ∀ p ∈ pend0, p.id < nid)
+    (hnd : (pend0.map (·.id)).Nodup) (tr : List IoEv2) (st : OrderSt)
+    (h : orderRun { pend := pend0 } nid tr = .ok st) (d0 : Disk Content MetaRec WalRec LogRec) :
+    cAll ordChk 0 ⟨d0, pend0.filterMap (absP C), []⟩ (absTrace C { pend := pend0 } nid tr) ∧
+    phRun 0 ⟨d0, pend0.filterMap (absP (LogRec := LogRec) C), []⟩ (absTrace C { pend := pend0 } nid tr) = st.phase ∧
+    (crun ⟨d0, pend0.filterMap (absP C), []⟩ (absTrace C { pend := pend0 } nid tr)).vol = st.pend.filterMap (absP C) := by
+  obtain ⟨hc, hs⟩ := orderRun_sim C tr (sim_of_pending C pend0 nid hlt hnd d0) h
+  exact ⟨hc, hs.phase.symm, hs.vol⟩
+
 end sim
 end Nomt.Store
